@@ -6,6 +6,7 @@
 From Coq Require Import ZArith List Bool Lia.
 From VC2 Require Import Base.PyZ Gen.StateRec Gen.VC2Math Gen.Quant Gen.ExpGolombLen Gen.SliceSizes
                         Model.EncoderSlices Proofs.QuantProofs Proofs.SliceSizesProofs Proofs.EncoderSlicesProofs.
+From VC2 Require Import Model.Lifting Model.Wavelet Proofs.IntegChainDefs Proofs.IntegChain.
 Import ListNotations.
 Open Scope Z_scope.
 
@@ -148,4 +149,128 @@ Example C04_example_chain :
   decode_picture st (shape_of yb) (shape_of cb) (shape_of cb) false
     (fun sx sy => hq_slice_roundtrip 1 (gathered st yb cb cb sx sy) (lossless_slice 1 (gathered st yb cb cb sx sy)))
   = ([[[7; -3]; [0; 250]]], [[[-9]]], [[[-9]]]).
+Proof. vm_compute. reflexivity. Qed.
+
+(* ------------------------------------------------------------------------------------------
+   END TO END: the chain with the CONCRETE transform of property C11 (integration C04 x C11,
+   Proofs/IntegChainDefs.v + Proofs/IntegChain.v).  No abstract Pic / dwt / idwt any more:
+
+     picture = (Y, C1, C2) arrays of integers;
+     pic_encode fv fh st qm ld cd = picture_encode: remove_offset (v - 2^(depth-1)), dwt_pad_addition,
+        dwt (Model/Wavelet.v, filters fv / fh), subbands listed in the order
+        transform_and_slice_picture visits them (level 0 "LL"/"L"; 1..dh "H"; dh+1..dh+d "HL","LH","HH")
+        each with its quantisation matrix entry qm level orientation;
+     pic_decode fv fh st ld cd   = picture_decode: idwt, idwt_pad_removal, clip, offset.
+
+   Quantified over: every vertical / horizontal filter (any shift, any stage list), every state
+   (depths dwt_depth, dwt_depth_ho >= 0, slice grid >= 1 x 1, picture sizes >= 1 x 1: config_ok),
+   bit depths ld, cd >= 1, every picture of the configured size whose samples lie in
+   0 .. 2^depth - 1 (pic_ok), every slice_size_scaler s >= 1.
+   Composed: C11_roundtrip + C11_dwt_shapes (wavelet round trip; subband shapes = slice geometry,
+   which discharges pic_wf), C13 partition, and all of C04's slice-level lemmas above.
+   Remaining hypothesis: qmat_ok -- the matrix has an unsigned entry for every (level,
+   orientation) present (a function Z -> Z -> Z here; in Python a missing entry raises KeyError);
+   C04_example_end_to_end shows it holds for a concrete matrix.
+   Still outside: the byte-level container around the slices (as for the parametric chain). *)
+Theorem C04_end_to_end_hq_lossless :
+  forall (fv fh : filter) (st : pystate) (qm : Z -> Z -> Z) (ld cd : Z),
+  config_ok st ld cd ->
+  forall (p : picture) (s : Z), qmat_ok st qm -> pic_ok st ld cd p -> 1 <= s ->
+  decode_model picture (pic_encode fv fh st qm ld cd) (pic_decode fv fh st ld cd) st p false
+    (fun sx sy => hq_slice_roundtrip s (encoder_slice picture (pic_encode fv fh st qm ld cd) st p false sx sy)
+                    (lossless_slice s (encoder_slice picture (pic_encode fv fh st qm ld cd) st p false sx sy))) = p.
+Proof. exact end_to_end_hq_lossless. Qed.
+
+Theorem C04_end_to_end_hq_lossy_q0 :
+  forall (fv fh : filter) (st : pystate) (qm : Z -> Z -> Z) (ld cd : Z),
+  config_ok st ld cd ->
+  forall (p : picture) bst s minq (SL : Z -> Z -> hq_slice), qmat_ok st qm -> pic_ok st ld cd p -> 0 < s ->
+  (forall sx sy, 0 <= sx < st_slices_x st -> 0 <= sy < st_slices_y st ->
+     hq_slice_ok bst s minq sx sy (encoder_slice picture (pic_encode fv fh st qm ld cd) st p false sx sy) (SL sx sy) /\ hq_qindex (SL sx sy) = 0) ->
+  decode_model picture (pic_encode fv fh st qm ld cd) (pic_decode fv fh st ld cd) st p false
+    (fun sx sy => hq_slice_roundtrip s (encoder_slice picture (pic_encode fv fh st qm ld cd) st p false sx sy) (SL sx sy)) = p.
+Proof. exact end_to_end_hq_lossy_q0. Qed.
+
+(* LD: with DC prediction of the level-0 band; the hypothesis "C1 and C2 carry the same levels"
+   of the parametric theorem is discharged (both transforms have the configured depths) *)
+Theorem C04_end_to_end_ld_lossy_q0 :
+  forall (fv fh : filter) (st : pystate) (qm : Z -> Z -> Z) (ld cd : Z),
+  config_ok st ld cd ->
+  forall (p : picture) bst minq (SL : Z -> Z -> ld_slice), qmat_ok st qm -> pic_ok st ld cd p ->
+  (forall sx sy, 0 <= sx < st_slices_x st -> 0 <= sy < st_slices_y st ->
+     ld_slice_ok bst minq sx sy (encoder_slice picture (pic_encode fv fh st qm ld cd) st p true sx sy) (SL sx sy) /\ ld_qindex (SL sx sy) = 0) ->
+  decode_model picture (pic_encode fv fh st qm ld cd) (pic_decode fv fh st ld cd) st p true
+    (fun sx sy => ld_slice_roundtrip (slice_bytes bst sx sy) (encoder_slice picture (pic_encode fv fh st qm ld cd) st p true sx sy) (SL sx sy)) = p.
+Proof. exact end_to_end_ld_lossy_q0. Qed.
+
+(* the two facts the instantiation rests on, in C04's vocabulary:
+   the Section hypothesis idwt_dwt AT every well-formed picture (from C11_roundtrip; it does NOT
+   hold for ragged / out-of-range pictures, which is why the end-to-end theorems are derived from
+   the pointwise form IntegChain.chain_core_at of C04's chain_core) ... *)
+Theorem C04_concrete_idwt_dwt :
+  forall (fv fh : filter) (st : pystate) (qm : Z -> Z -> Z) (ld cd : Z), config_ok st ld cd ->
+  forall p : picture, pic_ok st ld cd p ->
+  pic_decode fv fh st ld cd
+    (map sb_band (fst (fst (pic_encode fv fh st qm ld cd p))), map sb_band (snd (fst (pic_encode fv fh st qm ld cd p))),
+     map sb_band (snd (pic_encode fv fh st qm ld cd p))) = p.
+Proof. exact pic_decode_encode. Qed.
+
+(* ... and pic_wf (every subband array has the shape the slice geometry / the decoder's
+   initialize_wavelet_data uses) is a THEOREM for the concrete transform (from C11_dwt_shapes) *)
+Theorem C04_concrete_pic_wf :
+  forall (fv fh : filter) (st : pystate) (qm : Z -> Z -> Z) (ld cd : Z), config_ok st ld cd ->
+  forall p : picture, pic_ok st ld cd p -> pic_wf picture (pic_encode fv fh st qm ld cd) st p.
+Proof. exact pic_encode_wf. Qed.
+
+(* the parametric chain is the special case "round trip at every p" of the pointwise one *)
+Theorem C04_chain_core_pointwise :
+  forall (Pic : Type) (dwt : Pic -> list subband * list subband * list subband)
+         (idwt : list band * list band * list band -> Pic) st p dc V,
+  good_state st ->
+  idwt (map sb_band (fst (fst (dwt p))), map sb_band (snd (fst (dwt p))), map sb_band (snd (dwt p))) = p ->
+  pic_wf Pic dwt st p ->
+  (forall sx sy, 0 <= sx < st_slices_x st -> 0 <= sy < st_slices_y st ->
+     V sx sy = (fst (sc_Y (encoder_slice Pic dwt st p dc sx sy)), fst (sc_C1 (encoder_slice Pic dwt st p dc sx sy)),
+                fst (sc_C2 (encoder_slice Pic dwt st p dc sx sy)))) ->
+  decode_model Pic dwt idwt st p dc V = p.
+Proof. exact chain_core_at. Qed.
+
+(* non-vacuity of the end-to-end statement: 3x2 luma, 2x1 colour difference, 8 bit, one 2-D and one
+   horizontal-only level, LeGall (vertical) and a Haar-like (horizontal) filter, two slices, matrix
+   4*level + orientation: every hypothesis holds, the transform really transforms, and the
+   picture comes back through the wire *)
+Definition C04_ex_legall : filter := mk_filter 1 [mk_stage 2 2 2 0 [1; 1]; mk_stage 3 1 2 0 [1; 1]].
+Definition C04_ex_haar : filter := mk_filter 0 [mk_stage 2 1 1 1 [1]; mk_stage 3 0 1 0 [1]].
+Definition C04_ex_state : pystate :=
+  set_st_slices_y (set_st_slices_x (set_st_dwt_depth_ho (set_st_dwt_depth
+    (set_st_color_diff_height (set_st_color_diff_width (set_st_luma_height (set_st_luma_width empty_pystate 3) 2) 2) 1) 1) 1) 2) 1.
+Definition C04_ex_qm (l o : Z) : Z := 4 * l + o.
+Definition C04_ex_pic : picture := ([[10; 200; 35]; [7; 255; 0]], [[128; 3]], [[0; 255]]).
+
+Example C04_example_end_to_end :
+  config_ok C04_ex_state 8 8 /\ qmat_ok C04_ex_state C04_ex_qm /\ pic_ok C04_ex_state 8 8 C04_ex_pic /\
+  fst (fst (pic_encode C04_ex_legall C04_ex_haar C04_ex_state C04_ex_qm 8 8 C04_ex_pic))
+    = [(0, 0, [[-60]]); (1, 6, [[-100]]); (2, 11, [[219; 0]]); (2, 12, [[26; -35]]); (2, 13, [[58; 0]])] /\
+  let enc := pic_encode C04_ex_legall C04_ex_haar C04_ex_state C04_ex_qm 8 8 in
+  decode_model picture enc (pic_decode C04_ex_legall C04_ex_haar C04_ex_state 8 8) C04_ex_state C04_ex_pic false
+    (fun sx sy => hq_slice_roundtrip 1 (encoder_slice picture enc C04_ex_state C04_ex_pic false sx sy)
+                                       (lossless_slice 1 (encoder_slice picture enc C04_ex_state C04_ex_pic false sx sy)))
+  = C04_ex_pic.
+Proof.
+  split; [|split; [|split; [|split]]].
+  - unfold config_ok, good_state. vm_compute. repeat split; discriminate.
+  - intros l o H. unfold qm_present in H.
+    change (st_dwt_depth_ho C04_ex_state) with 1 in H. change (st_dwt_depth C04_ex_state) with 1 in H.
+    unfold dc_orient, o_L, o_LL, o_H, o_HL, o_HH in H. change (1 =? 0) with false in H. unfold C04_ex_qm. lia.
+  - unfold pic_ok, comp_ok, in_range, has_shape. cbn [C04_ex_pic fst snd]. repeat split; repeat constructor; try lia.
+  - vm_compute. reflexivity.
+  - vm_compute. reflexivity.
+Qed.
+
+(* the in-range hypothesis is needed: a sample outside 0 .. 2^depth - 1 is clipped by picture_decode *)
+Example C04_example_out_of_range_not_reconstructed :
+  pic_decode C04_ex_legall C04_ex_haar C04_ex_state 8 8
+    (let e := pic_encode C04_ex_legall C04_ex_haar C04_ex_state C04_ex_qm 8 8 ([[10; 300; 35]; [7; 255; 0]], [[128; 3]], [[0; 255]]) in
+     (map sb_band (fst (fst e)), map sb_band (snd (fst e)), map sb_band (snd e)))
+  = ([[10; 255; 35]; [7; 255; 0]], [[128; 3]], [[0; 255]]).
 Proof. vm_compute. reflexivity. Qed.
